@@ -167,3 +167,12 @@ func (cfg *Config) remoteWorkerFactory(remote *Remote) work.WorkerFactory {
 		return work.NewRemoteWorker(factory, zap.NewNop())
 	}
 }
+
+// ProcessRangeExported calls the exported Tier2Service.ProcessRange (validation and error mapping included) with
+// the given request, on the caller's goroutine, and returns its error (a gRPC status error or nil).
+func ProcessRangeExported(ctx context.Context, cfg *Config, in *pbssinternal.ProcessRangeRequest) error {
+	registerOnce.Do(dmetering.RegisterNull)
+	svc := service.VerifNewTier2(cfg.streamFactory(true), 0)
+	ss := &serverStream{ctx: ctx, send: func(*pbssinternal.ProcessRangeResponse) error { return nil }}
+	return svc.ProcessRange(in, ss)
+}
